@@ -3,8 +3,8 @@
 From CacheD Require Import Base Ledger LedgerUpd.
 From CacheD.proofs Require Import LedgerUpdProofs.
 
-(** (C05 / C01, every interleaving of an UpdateWeight with the sweeper's evictions, one lock-delimited action at
-   a time): with the entry guard held across the update, whenever neither operation is half-way the total is exactly the
+(** (C05 / C01, every interleaving of the worker's UpdateWeight and deletes with the sweeper's evictions, one
+   lock-delimited action at a time; two deleters of one id: only one of them finds the entry): with the entry guard held across the update, whenever neither operation is half-way the total is exactly the
    sum of the charges *)
 Theorem C05_guarded_update_exact :
   forall s sched, uconsistent s ->
